@@ -46,6 +46,8 @@ class Ctx(object):
         self.t0 = time.time()
         self.case_index = 0
         self.quick = (tier == "quick")
+        self.sample_every = 0
+        self.sample_phase = 0
 
     # scale(n_quick, n_thorough)
     def n(self, q, t=None):
@@ -65,6 +67,8 @@ class Ctx(object):
     def begin(self, key, desc=None, nontrivial=True, budget=None):
         """Announce a case before touching the library.  False => skip it."""
         self.case_index += 1
+        if self.sample_every and key in self.keys and (self.case_index % self.sample_every) != self.sample_phase:
+            return False    # sampler mode (C08): first case of every class, then every k-th case
         if key in self.skip:
             self.skipped[key] = self.skipped.get(key, 0) + 1
             return False
